@@ -34,9 +34,38 @@ func init() {
 
 const c53Pkg = "gno.land/pkg/gnoland"
 
-// decoding helpers of the streaming path: not validators of the genesis content
-var c53Decoding = map[string]bool{
-	c53Pkg + ".decodeSmallField": true,
+// c53KeyParam: a decoding helper of the streaming path is a package function that
+// reads a small field of the genesis envelope under a key its caller supplies
+// (decodeSmallField and any similar helper). It returns the index of that key
+// parameter, or -1. Such helpers are decoding steps, not validators of the content.
+func c53KeyParam(p *engine.Prog, fo *types.Func, depth int) int {
+	fn := p.FnOf(fo)
+	if fn == nil || fn.Decl == nil || depth < 0 {
+		return -1
+	}
+	info := fn.Info()
+	for _, s := range fn.Calls() {
+		ki := -1
+		if s.CalleeName() == c53Pkg+".(*GenesisStateRef).SmallField" {
+			ki = 0
+		} else if g, ok := s.Callee.(*types.Func); ok && g != fo && g.Pkg() == fo.Pkg() {
+			ki = c53KeyParam(p, g, depth-1)
+		}
+		if ki < 0 || ki >= len(s.Call.Args) {
+			continue
+		}
+		ko := engine.ObjOf(info, s.Call.Args[ki])
+		for i := 0; ; i++ {
+			po := paramObj(fn, i)
+			if po == nil {
+				break
+			}
+			if po == ko {
+				return i
+			}
+		}
+	}
+	return -1
 }
 
 // streaming-side functions that are the counterpart of an in-memory function
@@ -116,8 +145,8 @@ func c53Validators(f *engine.Fn) []c53Step {
 		if sig.Recv() != nil || sig.Results().Len() != 1 || sig.Results().At(0).Type().String() != "error" {
 			continue
 		}
-		if c53Decoding[s.CalleeName()] {
-			continue
+		if c53KeyParam(f.Prog, fo, 2) >= 0 {
+			continue // decoding helper (reads an envelope key given by the caller)
 		}
 		out = append(out, c53Step{s.CalleeName(), s})
 	}
@@ -282,25 +311,29 @@ func c53(c *engine.Ctx) {
 		st := gs.Underlying().(*types.Struct)
 		stateObj := paramObj(A, 1)
 		read := ceDirectFields(A.Info(), A.Body, stateObj)
-		// keys the streaming path reads
+		// keys the streaming path reads: SmallField(key) directly, or through a decoding
+		// helper that receives the key (constants evaluated, literal or named)
 		keys := map[string]bool{}
 		for _, l := range append([]*engine.Fn{B}, B.AllLits()...) {
 			for _, s := range l.Calls() {
-				switch s.CalleeName() {
-				case c53Pkg + ".(*GenesisStateRef).SmallField":
-					if tv, ok := l.Info().Types[s.Call.Args[0]]; ok && tv.Value != nil {
+				ki := -1
+				if s.CalleeName() == c53Pkg+".(*GenesisStateRef).SmallField" {
+					ki = 0
+				} else if g, ok := s.Callee.(*types.Func); ok && g.Pkg() != nil && engine.Rel(g.Pkg().Path()) == c53Pkg {
+					ki = c53KeyParam(p, g, 2)
+				}
+				if ki >= 0 && ki < len(s.Call.Args) {
+					if tv, ok := l.Info().Types[s.Call.Args[ki]]; ok && tv.Value != nil {
 						keys[strings.Trim(tv.Value.ExactString(), `"`)] = true
 					}
-				case c53Pkg + ".decodeSmallField":
-					if tv, ok := l.Info().Types[s.Call.Args[1]]; ok && tv.Value != nil {
-						keys[strings.Trim(tv.Value.ExactString(), `"`)] = true
-					}
-				case c53Pkg + ".(*GenesisStateRef).IterBalances":
-					keys["balances"] = true
-				case c53Pkg + ".(*GenesisStateRef).IterTxs":
-					keys["txs"] = true
 				}
 			}
+		}
+		if len(B.DeepCallsTo(2, c53Pkg+".(*GenesisStateRef).IterBalances")) > 0 {
+			keys["balances"] = true
+		}
+		if len(B.DeepCallsTo(2, c53Pkg+".(*GenesisStateRef).IterTxs")) > 0 {
+			keys["txs"] = true
 		}
 		n := 0
 		for i := 0; i < st.NumFields(); i++ {
